@@ -54,6 +54,10 @@ struct Case {
     seed: u64,
     counter: u32,
     max_steps: usize,
+    /// the image reaches the memory as several contiguous sections: cut points (raw draws, reduced
+    /// modulo the image length), possibly in the middle of an instruction
+    #[serde(default)]
+    cuts: Vec<u32>,
 }
 
 // ---------------------------------------------------------------------------------------------
@@ -240,6 +244,7 @@ fn decode(t: &mut Tape) -> Case {
         seed: t.u64(),
         counter: t.below(6) as u32,
         max_steps: [200usize, 60, 2000][t.weighted(&[50, 25, 25])],
+        cuts: (0..t.weighted(&[60, 25, 15])).map(|_| t.raw()).collect(),
     }
 }
 
@@ -557,7 +562,23 @@ fn check(c: &Case, obs: &mut Obs) -> Result<(), Failure> {
     // ---- recover the function
     let endian = if isa.big_endian() { Endian::Big } else { Endian::Little };
     let mut mem = backing::Memory::new(endian);
-    mem.set_memory(p.base, p.bytes.clone(), MemoryPermissions::READ | MemoryPermissions::EXECUTE);
+    {
+        // one section, or up to three contiguous ones (a loader maps segments side by side)
+        let n = p.bytes.len();
+        let mut cuts: Vec<usize> = c.cuts.iter().map(|r| *r as usize % n.max(1)).filter(|k| *k > 0).collect();
+        cuts.sort();
+        cuts.dedup();
+        if !cuts.is_empty() {
+            obs.class("image-in-several-sections");
+        }
+        let mut start = 0usize;
+        for k in cuts.into_iter().chain(std::iter::once(n)) {
+            if k > start {
+                mem.set_memory(p.base + start as u64, p.bytes[start..k].to_vec(), MemoryPermissions::READ | MemoryPermissions::EXECUTE);
+            }
+            start = k;
+        }
+    }
     let mut options = Options::new();
     let disp_expr = p.disp_addr.and_then(|h| units.get(&h)).and_then(|u| u.branch_expr.clone());
     for (h, t) in &manual {
@@ -982,6 +1003,7 @@ fn main() -> std::process::ExitCode {
     ];
     // 0.4-0.5 of the smallest fraction measured over seeds 1..5 (45 000 cases each), see the report
     spec.floors = vec![
+        ("image-in-several-sections", 0.15),
         ("nontrivial", 0.25),
         ("taken-branch", 0.26),
         ("x86:straddle", 0.008),
